@@ -1,1 +1,421 @@
-//! C ABI support: filled in below.
+//! Support for the C driver (`cdrive.c`, compiled against the shipped `c_hook.h`): a few exported
+//! helpers to obtain the function table, to create / free a `ParsedPacket`, and to dump the state
+//! of the object (bytes + public fields) as JSON.  None of them interprets DNS.
+//!
+//! The second half is the *native* interpreter of the same script language: it performs, through
+//! the Rust API, the operation each table entry stands for, and prints events in the same format,
+//! so that TLC can compare the two traces event by event (C15).
+
+use crate::exec::view_json;
+use crate::util::*;
+use dnssector::*;
+use libc::{c_char, size_t};
+
+#[no_mangle]
+pub extern "C" fn vh_fn_table() -> *const FnTable {
+    Box::leak(Box::new(dnssector::c_abi::fn_table())) as *const FnTable
+}
+
+/// # Safety
+/// `bytes` must point to `len` readable bytes.
+#[no_mangle]
+pub unsafe extern "C" fn vh_parse(bytes: *const u8, len: size_t) -> *mut ParsedPacket {
+    let v = std::slice::from_raw_parts(bytes, len).to_vec();
+    match guarded(|| DNSSector::new(v).and_then(|d| d.parse())) {
+        Ok(Ok(pp)) => Box::into_raw(Box::new(pp)),
+        _ => std::ptr::null_mut(),
+    }
+}
+
+/// # Safety
+/// `pp` must come from `vh_parse`.
+#[no_mangle]
+pub unsafe extern "C" fn vh_free(pp: *mut ParsedPacket) {
+    if !pp.is_null() {
+        drop(Box::from_raw(pp));
+    }
+}
+
+pub fn state_json(pp: &ParsedPacket) -> String {
+    format!("{{\"bytes\":{},\"view\":{}}}", jbytes(pp.packet()), view_json(pp))
+}
+
+/// Writes `{"bytes":[..],"view":{..}}` (NUL terminated) into `buf`; returns the length needed.
+/// # Safety
+/// `pp` must come from `vh_parse`; `buf` must have room for `cap` bytes.
+#[no_mangle]
+pub unsafe extern "C" fn vh_state_json(pp: *const ParsedPacket, buf: *mut c_char, cap: size_t) -> size_t {
+    let s = match guarded(|| state_json(&*pp)) {
+        Ok(s) => s,
+        Err(()) => "{\"bytes\":[],\"view\":{\"poisoned\":true}}".to_string(),
+    };
+    let b = s.as_bytes();
+    if b.len() + 1 <= cap {
+        std::ptr::copy_nonoverlapping(b.as_ptr(), buf as *mut u8, b.len());
+        *buf.add(b.len()) = 0;
+    }
+    b.len() + 1
+}
+
+// ---------------------------------------------------------------------------------------------
+// native interpreter of the C15 script language
+
+fn unhex(s: &str) -> Vec<u8> {
+    if s == "-" {
+        return vec![];
+    }
+    (0..s.len() / 2).map(|i| u8::from_str_radix(&s[2 * i..2 * i + 2], 16).unwrap_or(0)).collect()
+}
+
+fn ret_err(r: Result<(), Error>) -> (i32, String) {
+    match r {
+        Ok(()) => (0, String::new()),
+        Err(e) => (-1, e.to_string()),
+    }
+}
+
+struct Act {
+    idx: Option<usize>,
+    name: String,
+    args: Vec<String>,
+}
+
+fn native_record_actions(it: &mut ResponseIterator<'_>, k: usize, acts: &[Act]) -> (String, bool) {
+    let mut out = vec![];
+    let mut stop = false;
+    for a in acts.iter().filter(|a| a.idx.is_none() || a.idx == Some(k)) {
+        match a.name.as_str() {
+            "obs" => {
+                let ty = it.rr_type();
+                let ip = if ty == 1 || ty == 28 {
+                    match it.rr_ip() {
+                        Ok(std::net::IpAddr::V4(x)) => jbytes(&x.octets()),
+                        Ok(std::net::IpAddr::V6(x)) => jbytes(&x.octets()),
+                        Err(_) => "[]".into(),
+                    }
+                } else {
+                    "[]".into()
+                };
+                out.push(format!(
+                    "{{\"a\":\"obs\",\"name\":{},\"type\":{},\"class\":{},\"ttl\":{},\"ip\":{},\"ok\":true}}",
+                    jbytes(&it.name()),
+                    ty,
+                    it.rr_class(),
+                    ju32(it.rr_ttl()),
+                    ip
+                ));
+            }
+            "set_ttl" => {
+                it.set_rr_ttl(a.args[0].parse().unwrap_or(0));
+                out.push("{\"a\":\"set_ttl\",\"ret\":0,\"err\":\"\"}".to_string());
+            }
+            "set_ip" => {
+                let b = unhex(&a.args[0]);
+                let ip: std::net::IpAddr = if b.len() == 4 {
+                    std::net::IpAddr::from([b[0], b[1], b[2], b[3]])
+                } else {
+                    let mut x = [0u8; 16];
+                    x.copy_from_slice(&b[..16]);
+                    std::net::IpAddr::from(x)
+                };
+                // the table entry has no return value: only matching families are scripted
+                let _ = it.set_rr_ip(&ip);
+                out.push("{\"a\":\"set_ip\",\"ret\":0,\"err\":\"\"}".to_string());
+            }
+            "set_raw_name" => {
+                let (r, e) = ret_err(it.set_raw_name(&unhex(&a.args[0])));
+                out.push(format!("{{\"a\":\"set_raw_name\",\"ret\":{},\"err\":{}}}", r, jstr(&e)));
+            }
+            "set_name" => {
+                let text = unhex(&a.args[0]);
+                let zone = unhex(&a.args[1]);
+                let z = if zone.is_empty() { None } else { Some(&zone[..]) };
+                let r = dnssector::synth::r#gen::raw_name_from_str(&text, z).and_then(|raw| it.set_raw_name(&raw));
+                let (r, e) = ret_err(r);
+                out.push(format!("{{\"a\":\"set_name\",\"ret\":{},\"err\":{}}}", r, jstr(&e)));
+            }
+            "delete" => {
+                let (r, e) = ret_err(it.delete());
+                out.push(format!("{{\"a\":\"delete\",\"ret\":{},\"err\":{}}}", r, jstr(&e)));
+            }
+            "stop" => {
+                stop = true;
+                out.push("{\"a\":\"stop\",\"ret\":0,\"err\":\"\"}".to_string());
+            }
+            _ => {}
+        }
+    }
+    (format!("{{\"k\":{},\"acts\":[{}]}}", k, out.join(",")), stop)
+}
+
+/// Runs a script (lines) natively; returns the event lines.
+pub fn run_script_native(lines: &[String]) -> Vec<String> {
+    let mut out = vec![];
+    let mut pp: Option<ParsedPacket> = None;
+    let mut i = 0;
+    let mut n = 0;
+    while i < lines.len() {
+        let t: Vec<&str> = lines[i].split_whitespace().collect();
+        i += 1;
+        if t.is_empty() {
+            continue;
+        }
+        match t[0] {
+            "PKT" => {
+                pp = match guarded(|| DNSSector::new(unhex(t[1])).and_then(|d| d.parse())) {
+                    Ok(Ok(p)) => Some(p),
+                    _ => None,
+                };
+                out.push(format!("{{\"i\":{},\"op\":\"pkt\",\"ok\":{}}}", n, pp.is_some()));
+                n += 1;
+            }
+            "END" => break,
+            "OP" => {
+                let p = match pp.as_mut() {
+                    Some(p) => p,
+                    None => continue,
+                };
+                let op = t[1];
+                let mut body = String::new();
+                // the acts of an iter op are consumed even if the op panics
+                let mut acts: Vec<Act> = vec![];
+                if op == "iter" {
+                    let nacts: usize = t[3].parse().unwrap_or(0);
+                    for _ in 0..nacts {
+                        let a: Vec<&str> = lines[i].split_whitespace().collect();
+                        i += 1;
+                        acts.push(Act {
+                            idx: if a[1] == "*" { None } else { a[1].parse().ok() },
+                            name: a[2].to_string(),
+                            args: a[3..].iter().map(|s| s.to_string()).collect(),
+                        });
+                    }
+                }
+                let r = guarded(|| match op {
+                    "flags" => {
+                        let f = p.flags();
+                        body = format!("\"ret\":0,\"vals\":[{},{}],\"err\":\"\"", f & 0xffff, f >> 16);
+                    }
+                    "set_flags" => {
+                        p.set_flags(t[2].parse::<u64>().unwrap_or(0) as u32);
+                        body = "\"ret\":0,\"vals\":[],\"err\":\"\"".into();
+                    }
+                    "rcode" => body = format!("\"ret\":0,\"vals\":[{}],\"err\":\"\"", p.rcode()),
+                    "set_rcode" => {
+                        p.set_rcode(t[2].parse().unwrap_or(0));
+                        body = "\"ret\":0,\"vals\":[],\"err\":\"\"".into();
+                    }
+                    "opcode" => body = format!("\"ret\":0,\"vals\":[{}],\"err\":\"\"", p.opcode()),
+                    "set_opcode" => {
+                        p.set_opcode(t[2].parse().unwrap_or(0));
+                        body = "\"ret\":0,\"vals\":[],\"err\":\"\"".into();
+                    }
+                    "question" => match p.question() {
+                        None => body = "\"ret\":-1,\"vals\":[0],\"name\":[],\"err\":\"\"".into(),
+                        Some((name, ty, _)) => {
+                            if name.len() > 255 {
+                                body = format!("\"ret\":-1,\"vals\":[{}],\"name\":[],\"err\":\"\"", ty);
+                            } else {
+                                body = format!("\"ret\":0,\"vals\":[{}],\"name\":{},\"err\":\"\"", ty, jbytes(&name));
+                            }
+                        }
+                    },
+                    "raw_packet" => {
+                        let cap: usize = t[2].parse().unwrap_or(0);
+                        let b = p.packet();
+                        if b.len() > cap {
+                            body = "\"ret\":-1,\"vals\":[0],\"out\":[],\"err\":\"\"".into();
+                        } else {
+                            body = format!("\"ret\":0,\"vals\":[{}],\"out\":{},\"err\":\"\"", b.len(), jbytes(b));
+                        }
+                    }
+                    "add" => {
+                        let text = unhex(t[3]);
+                        let sec = match t[2] {
+                            "Q" => Section::Question,
+                            "AN" => Section::Answer,
+                            "NS" => Section::NameServers,
+                            _ => Section::Additional,
+                        };
+                        let r = match std::str::from_utf8(&text) {
+                            Err(_) => Err(DSError::ParseError.into()),
+                            Ok(s) => p.insert_rr_from_string(sec, s),
+                        };
+                        let (r, e) = ret_err(r);
+                        body = format!("\"ret\":{},\"vals\":[],\"err\":{}", r, jstr(&e));
+                    }
+                    "rename" => {
+                        let (r, e) = ret_err(p.rename_with_raw_names(&unhex(t[2]), &unhex(t[3]), t[4] == "1"));
+                        body = format!("\"ret\":{},\"vals\":[],\"err\":{}", r, jstr(&e));
+                    }
+                    "namefromstr" => match dnssector::synth::r#gen::raw_name_from_str(&unhex(t[2]), None) {
+                        Ok(raw) => body = format!("\"ret\":0,\"vals\":[{}],\"out\":{},\"err\":\"\"", raw.len(), jbytes(&raw)),
+                        Err(e) => body = format!("\"ret\":-1,\"vals\":[0],\"out\":[],\"err\":{}", jstr(&e.to_string())),
+                    },
+                    "iter" => {
+                        let mut recs = vec![];
+                        let mut k = 0;
+                        match t[2] {
+                            "EDNS" => {
+                                let mut it = p.into_iter_edns();
+                                while let Some(item) = it {
+                                    recs.push(format!("{{\"k\":{},\"acts\":[]}}", k));
+                                    k += 1;
+                                    it = item.next();
+                                }
+                            }
+                            s => {
+                                let mut it = match s {
+                                    "AN" => p.into_iter_answer(),
+                                    "NS" => p.into_iter_nameservers(),
+                                    _ => p.into_iter_additional(),
+                                };
+                                while let Some(mut item) = it {
+                                    let (j, stop) = native_record_actions(&mut item, k, &acts);
+                                    recs.push(j);
+                                    k += 1;
+                                    if stop || k > 70000 {
+                                        break;
+                                    }
+                                    it = item.next();
+                                }
+                            }
+                        }
+                        body = format!("\"ret\":0,\"vals\":[{}],\"recs\":[{}],\"err\":\"\"", k, recs.join(","));
+                    }
+                    _ => body = "\"ret\":0,\"vals\":[],\"err\":\"unknown op\"".into(),
+                });
+                let st = match guarded(|| state_json(p)) {
+                    Ok(s) => s,
+                    Err(()) => "{\"bytes\":[],\"view\":{\"poisoned\":true}}".to_string(),
+                };
+                match r {
+                    Ok(()) => out.push(format!("{{\"i\":{},\"op\":\"{}\",\"died\":false,{},\"state\":{}}}", n, op, body, st)),
+                    Err(()) => {
+                        out.push(format!("{{\"i\":{},\"op\":\"{}\",\"died\":true,\"state\":{}}}", n, op, st));
+                        break;
+                    }
+                }
+                n += 1;
+            }
+            _ => {}
+        }
+    }
+    out
+}
+
+
+// ---------------------------------------------------------------------------------------------
+// C16: thread schedules on the error slot of the table
+
+/// Failing table calls with pairwise different descriptions; returns (return value, err pointer)
+unsafe fn failing_call(t: &FnTable, pp: *mut ParsedPacket, kind: usize, err: &mut *const CErr) -> i32 {
+    use std::ffi::CString;
+    match kind % 5 {
+        0 => {
+            let s = CString::new("bad text").unwrap();
+            (t.add_to_answer)(pp, err as *mut *const CErr, s.as_ptr())
+        }
+        1 => {
+            let mut out = [0u8; 256];
+            let mut len: size_t = 0;
+            let name = [b'x'; 70];
+            (t.raw_name_from_str)(&mut out, &mut len, err as *mut *const CErr, name.as_ptr() as *const c_char, name.len())
+        }
+        2 => {
+            let s = CString::new("x.a. 5 IN A 1.1.1.1").unwrap();
+            (t.add_to_question)(pp, err as *mut *const CErr, s.as_ptr())
+        }
+        3 => {
+            let src = [1u8, b'a', 0];
+            (t.rename_with_raw_names)(pp, err as *mut *const CErr, src.as_ptr(), 0, src.as_ptr(), 3, false)
+        }
+        _ => {
+            let mut out = [0u8; 256];
+            let mut len: size_t = 0;
+            let name = b"a..b";
+            (t.raw_name_from_str)(&mut out, &mut len, err as *mut *const CErr, name.as_ptr() as *const c_char, name.len())
+        }
+    }
+}
+
+/// the text the same failing operation reports natively
+fn native_failure_text(pp: &mut ParsedPacket, kind: usize) -> String {
+    let r: Result<(), Error> = match kind % 5 {
+        0 => pp.insert_rr_from_string(Section::Answer, "bad text"),
+        1 => dnssector::synth::r#gen::raw_name_from_str(&[b'x'; 70], None).map(|_| ()),
+        2 => pp.insert_rr_from_string(Section::Question, "x.a. 5 IN A 1.1.1.1"),
+        3 => pp.rename_with_raw_names(&[], &[1, b'a', 0], false),
+        _ => dnssector::synth::r#gen::raw_name_from_str(b"a..b", None).map(|_| ()),
+    };
+    match r {
+        Ok(()) => "<no failure>".to_string(),
+        Err(e) => e.to_string(),
+    }
+}
+
+pub fn run_schedule(v: &serde_json::Value) -> String {
+    use std::sync::mpsc::channel;
+    let n = vusize(&v["n"]).max(1);
+    let program: Vec<String> = v["program"].as_array().map(|a| a.iter().map(vstr).collect()).unwrap_or_default();
+    let order: Vec<usize> = v["order"].as_array().map(|a| a.iter().map(vusize).collect()).unwrap_or_default();
+    let base: Vec<u8> = vec![0, 7, 0x81, 0x80, 0, 1, 0, 1, 0, 0, 0, 0, 1, b'q', 0, 0, 1, 0, 1, 0xc0, 12, 0, 1, 0, 1, 0, 0, 0, 9, 0, 4, 1, 2, 3, 4];
+    let mut go_tx = vec![];
+    let (res_tx, res_rx) = channel::<String>();
+    let mut handles = vec![];
+    for t in 1..=n {
+        let (tx, rx) = channel::<()>();
+        go_tx.push(tx);
+        let res_tx = res_tx.clone();
+        let program = program.clone();
+        let base = base.clone();
+        handles.push(std::thread::spawn(move || {
+            let table = dnssector::c_abi::fn_table();
+            let mut pp = DNSSector::new(base.clone()).unwrap().parse().unwrap();
+            let mut shadow = DNSSector::new(base).unwrap().parse().unwrap();
+            let mut err: *const CErr = std::ptr::null();
+            let mut nfail = 0;
+            for (k, a) in program.iter().enumerate() {
+                if rx.recv().is_err() {
+                    return;
+                }
+                let line = if a == "F" {
+                    let kind = (t - 1) * 2 + nfail;
+                    nfail += 1;
+                    let native = native_failure_text(&mut shadow, kind);
+                    let ret = unsafe { failing_call(&table, &mut pp as *mut ParsedPacket, kind, &mut err) };
+                    format!("{{\"t\":{},\"pc\":{},\"a\":\"F\",\"kind\":{},\"ret\":{},\"text\":{}}}", t, k + 1, kind % 5, ret, jstr(&native))
+                } else {
+                    let msg = if err.is_null() {
+                        "<null>".to_string()
+                    } else {
+                        unsafe { std::ffi::CStr::from_ptr((table.error_description)(err)).to_string_lossy().to_string() }
+                    };
+                    format!("{{\"t\":{},\"pc\":{},\"a\":\"R\",\"kind\":0,\"ret\":0,\"text\":{}}}", t, k + 1, jstr(&msg))
+                };
+                let _ = res_tx.send(line);
+            }
+        }));
+    }
+    let mut steps = vec![];
+    for t in order.iter() {
+        if *t == 0 || *t > n {
+            continue;
+        }
+        if go_tx[*t - 1].send(()).is_err() {
+            break;
+        }
+        match res_rx.recv_timeout(std::time::Duration::from_secs(10)) {
+            Ok(l) => steps.push(l),
+            Err(_) => {
+                steps.push(format!("{{\"t\":{},\"pc\":0,\"a\":\"X\",\"kind\":0,\"ret\":0,\"text\":\"thread died\"}}", t));
+                break;
+            }
+        }
+    }
+    drop(go_tx);
+    for h in handles {
+        let _ = h.join();
+    }
+    format!("{{\"k\":\"sched\",\"n\":{},\"order\":{},\"steps\":[{}]}}", n, v["order"], steps.join(","))
+}
